@@ -109,6 +109,14 @@ def writer_table(ctx, slot: str):
             if len(trunc) >= 2:
                 problems.append(f"'{op.name}' is computed from {trunc} after they were truncated to int: the error of the written "
                                 f"value can reach 2 ms (the format's resolution is 1 ms; cast last)")
+            # a column assigned from a freshly built Series (RangeIndex 0..n-1) is aligned on ROW LABELS, not positions: after
+            # sorted() / a filter the list's labels are not 0..n-1, so values land on other rows or become NaN
+            for x in ast.walk(op.args):
+                if isinstance(x, ast.Call) and isinstance(x.func, ast.Attribute) and x.func.attr == "Series" and x.args and \
+                        isinstance(x.args[0], (ast.List, ast.ListComp)) and not any(k.arg == "index" for k in x.keywords):
+                    problems.append(f"'{op.name}' is assigned from a new Series without index=: pandas aligns it with the frame on row "
+                                    f"labels; for a list whose labels are not 0..n-1 (after sorted(), after(), between() ...) the values go "
+                                    f"to the wrong notes or are written as '.nan'")
             st[op.name] = (rewrite(op.args), None)
         elif op.kind == "call":
             c = op.args
@@ -543,7 +551,7 @@ def rule_r3(ctx) -> List[R.Inst]:
         file = M.mods[wfn.mod].rel
         key = f"{slot}:keys"
         if em is None or probs:
-            insts.append((R.viol if any("KeyError" in p or "does not have" in p or "truncated to int" in p for p in probs) else R.undec)(
+            insts.append((R.viol if any("KeyError" in p or "does not have" in p or "truncated to int" in p or "row labels" in p for p in probs) else R.undec)(
                 rid, key, file, wfn.node.lineno, "; ".join(probs) or "to_dict('records') not found",
                 construct="; ".join(probs)))
             continue
